@@ -964,10 +964,14 @@ bool value_t::is_less_than(const value_t& val) const
     switch (val.type()) {
     case INTEGER:
     case AMOUNT: {
+      // Walk the amounts in sorted order: the map is keyed by commodity
+      // pointer, and which component decides (or raises an error) must not
+      // depend on heap addresses.
       bool no_amounts = true;
-      foreach (const balance_t::amounts_map::value_type& pair,
-               as_balance().amounts) {
-        if (pair.second >= val)
+      balance_t::amounts_array sorted;
+      as_balance().sorted_amounts(sorted);
+      foreach (const amount_t * amt, sorted) {
+        if (*amt >= val)
           return false;
         no_amounts = false;
       }
@@ -1110,10 +1114,12 @@ bool value_t::is_greater_than(const value_t& val) const
     switch (val.type()) {
     case INTEGER:
     case AMOUNT: {
+      // Sorted walk, as in is_less_than.
       bool no_amounts = true;
-      foreach (const balance_t::amounts_map::value_type& pair,
-               as_balance().amounts) {
-        if (pair.second <= val)
+      balance_t::amounts_array sorted;
+      as_balance().sorted_amounts(sorted);
+      foreach (const amount_t * amt, sorted) {
+        if (*amt <= val)
           return false;
         no_amounts = false;
       }
